@@ -10,6 +10,7 @@ INVARIANTS
   Gap_Sessions
   Gap_Clock
   C12_PrefixLimitRemovesAll_KF
+  C12_CurrentSessionCapsDecide_KF
   C12_NoGrRemovesAll_KF
   C12_NonQualifyingRemovesAll_KF
   C12_FamilySplit_KF
